@@ -67,7 +67,65 @@ def shape_src(s, n):
         return "return #[%s[ab]%s]" % (eq, eq)
     if s == "unpack":
         return "local t = {}\nfor i = 1, %d do t[i] = i end\nreturn select('#', table.unpack(t, 1, %d))" % (n, n)
+    if s == "unary-chain":
+        return "return " + "- " * n + "1"
+    if s == "pow-chain":
+        return "return math.tointeger(" + "1^" * n + "1)"
+    if s == "nest-call":
+        return "local function id(x) return x end\nreturn " + "id(" * n + "1" + ")" * n
+    if s == "nest-index":
+        return "local t = {1}\nreturn " + "t[" * n + "1" + "]" * n
+    if s == "call-suffix":
+        return "local function f() return f end\nreturn (f" + "()" * n + " == f) and 3 or 0"
+    if s == "index-suffix":
+        return "local t = {v = 8} t.a = t\nreturn t" + ".a" * n + ".v"
+    if s == "method-suffix":
+        return "local t = {v = 2} function t:m() return self end\nreturn t" + ":m()" * n + ".v"
+    if s == "and-chain":
+        return "return " + "true and " * n + "6"
+    if s == "elseif-chain":
+        return "local x = 1\nif x == 0 then return 0\n" + "elseif x == 0 then return 0\n" * n + "else return 9 end"
+    if s in REC:
+        return REC[s]
     raise Infra("unknown shape " + s)
+
+
+def _bin(ev, op):
+    return ("local mt = {} mt.%s = function(a, b) return a %s b end\nlocal x = setmetatable({}, mt)\nreturn x %s 1" % (ev, op, op))
+
+
+# unbounded recursion through routes that nest the implementation's own stack (Limits.tla RecShapes): program text only
+REC = {
+    "rec-index": "local mt = {} mt.__index = function(t, k) return t[k] end\nlocal t = setmetatable({}, mt)\nreturn t.x",
+    "rec-newindex": "local mt = {} mt.__newindex = function(t, k, v) t[k] = v end\nlocal t = setmetatable({}, mt)\nt.x = 1\nreturn 1",
+    "rec-add": _bin("__add", "+"), "rec-sub": _bin("__sub", "-"), "rec-mul": _bin("__mul", "*"), "rec-div": _bin("__div", "/"),
+    "rec-mod": _bin("__mod", "%"), "rec-pow": _bin("__pow", "^"), "rec-idiv": _bin("__idiv", "//"),
+    "rec-band": _bin("__band", "&"), "rec-bor": _bin("__bor", "|"), "rec-bxor": _bin("__bxor", "~"), "rec-shl": _bin("__shl", "<<"),
+    "rec-shr": _bin("__shr", ">>"), "rec-concat": _bin("__concat", ".."),
+    "rec-unm": "local mt = {} mt.__unm = function(a) return -a end\nlocal x = setmetatable({}, mt)\nreturn -x",
+    "rec-bnot": "local mt = {} mt.__bnot = function(a) return ~a end\nlocal x = setmetatable({}, mt)\nreturn ~x",
+    "rec-len": "local mt = {} mt.__len = function(a) return #a end\nlocal x = setmetatable({}, mt)\nreturn #x",
+    "rec-eq": "local mt = {} mt.__eq = function(a, b) return a == b end\nlocal x, y = setmetatable({}, mt), setmetatable({}, mt)\nreturn x == y",
+    "rec-lt": "local mt = {} mt.__lt = function(a, b) return a < b end\nlocal x, y = setmetatable({}, mt), setmetatable({}, mt)\nreturn x < y",
+    "rec-le": "local mt = {} mt.__le = function(a, b) return a <= b end\nlocal x, y = setmetatable({}, mt), setmetatable({}, mt)\nreturn x <= y",
+    "rec-call-self": "local x = setmetatable({}, {}) getmetatable(x).__call = x\nreturn x()",
+    "rec-call-pair": "local x, y = setmetatable({}, {}), setmetatable({}, {}) getmetatable(x).__call = y getmetatable(y).__call = x\nreturn x(1, 2)",
+    "rec-call-cycle3": ("local a, b, c = setmetatable({}, {}), setmetatable({}, {}), setmetatable({}, {})\n"
+                        "getmetatable(a).__call = b getmetatable(b).__call = c getmetatable(c).__call = a\nreturn (pcall(a)) and 1 or error('x')"),
+    "rec-index-self": "local x = setmetatable({}, {}) getmetatable(x).__index = x\nreturn x.foo",
+    "rec-newindex-self": "local x = setmetatable({}, {}) getmetatable(x).__newindex = x\nx.foo = 1\nreturn 1",
+    "rec-tostring": "local mt = {} mt.__tostring = function(a) return tostring(a) end\nreturn tostring(setmetatable({}, mt))",
+    "rec-close": "local mt = {}\nlocal function f() local x <close> = setmetatable({}, mt) end\nmt.__close = f\nf()\nreturn 1",
+    "rec-sort": "local function c(a, b) table.sort({3, 2, 1}, c) return a < b end\ntable.sort({3, 2, 1}, c)\nreturn 1",
+    "rec-gsub": "local function r(s) return (string.gsub(s, '.', r)) end\nreturn r('a')",
+    "rec-pairs": "local mt = {} mt.__pairs = function(t) return pairs(t) end\nfor k in pairs(setmetatable({}, mt)) do end\nreturn 1",
+    "rec-xpcall-handler": "local function h(e) error(e) end\nlocal ok = xpcall(error, h, 'x')\nif not ok then error('handler kept failing') end\nreturn 1",
+    "rec-load-reader": "local function rd() return load(rd) end\nlocal f = load(rd)\nif not f then error('no chunk') end\nreturn 1",
+    "rec-index-in-coroutine": ("local mt = {} mt.__index = function(t, k) return t[k] end\nlocal t = setmetatable({}, mt)\n"
+                               "local ok, e = coroutine.resume(coroutine.create(function() return t.x end))\nif not ok then error(e, 0) end\nreturn 1"),
+    "rec-add-via-pcall": ("local mt = {} mt.__add = function(a, b) local ok, v = pcall(function() return a + b end) if not ok then error(v, 0) end return v end\n"
+                          "return setmetatable({}, mt) + 1"),
+}
 
 
 EDGE = ["nil", "true", "0", "-1", "1", "math.maxinteger", "math.mininteger", "2^53", "0.5", "-0.0", "0/0", "1/0", "-1/0", '""', '"a"', '"%"',
@@ -107,6 +165,10 @@ def run(prop, tier):
         wrapped = "local f, e = load(%s)\nif not f then emit('compile-error') return end\nlocal r = table.pack(pcall(f))\nif r[1] then emit('ok', r[2]) else emit('runtime-error') end" % long_lua_string(src)
         cases.append({"id": len(cases), "src": wrapped, "timeout": 60000, "cpu": 2000000000, "mem": 3000000000})
         meta.append(l)
+        if l.get("div"):
+            # a program without a value must end by an ordinary error also when no resource limit is set
+            cases.append({"id": len(cases), "src": wrapped, "timeout": 240000})
+            meta.append(dict(l, unlimited=True))
     outs = run_lua_cases(drv, cases, nproc=max(2, NCPU // 2))
     for i, l in enumerate(meta):
         o = outs[i]
@@ -122,15 +184,18 @@ def run(prop, tier):
             else:
                 ev = o["events"][0] if o["events"] else [{"s": "none"}]
                 outcome = ev[0].get("s")
-                if outcome == "ok":
+                if outcome == "ok" and l.get("div"):
+                    why = "value returned: a program that recurses without bound has no value"
+                    outcome = "wrong"
+                elif outcome == "ok":
                     got = ev[1] if len(ev) > 1 else None
                     if got != {"i": str(l["result"])}:
                         why = "wrong result: %s, the manual's value is %d" % (json.dumps(got), l["result"])
                         outcome = "wrong"
-        key = "%s:%s" % (l["shape"], outcome)
+        key = "%s%s:%s" % (l["shape"], "(unlimited)" if l.get("unlimited") else "", outcome)
         cov["limit_outcomes"][key] = cov["limit_outcomes"].get(key, 0) + 1
         if why:
-            rep.violation({"kind": "limit", "shape": l["shape"], "why": why.split(":")[0], "nclass": ("<=255" if l["n"] <= 255 else "<=32767" if l["n"] <= 32767 else "<=65535" if l["n"] <= 65535 else ">65535")},
+            rep.violation({"kind": "limit", "shape": l["shape"], "why": why.split(":")[0], "unlimited": bool(l.get("unlimited")), "nclass": ("<=255" if l["n"] <= 255 else "<=32767" if l["n"] <= 32767 else "<=65535" if l["n"] <= 65535 else ">65535")},
                           {"cmd": "lua-run", "shape": l["shape"], "n": l["n"], "src_head": shape_src(l["shape"], l["n"])[:300], "observed": {k: v for k, v in o.items() if k != "events"}, "why": why})
     cov["distinct_nontrivial"] = sum(1 for k in cov["limit_outcomes"] if not k.endswith(":ok"))
     # ---------- (2a) every library function x edge-value tuples (plain exploration)
